@@ -18,7 +18,8 @@ RULE = ("Batches for the five conversions in bionumpy.io.strops. Integers: the c
         "independence: the result for a row is bit-identical in the full batch, alone, and in a permuted batch. The same integer and float texts are also "
         "read as the columns of a tab-separated file whose columns are all numeric (1..3 columns, the first value often narrower than a later one, with and "
         "without a header line, LF and CRLF), through the delimited-buffer reader, with the same oracles; and the integers are formatted as the start and the "
-        "(optional) score column of a BED6 table handed to the file writer. "
+        "(optional) score column of a BED6 table handed to the file writer, and as integer matrices (row-major, column-major, transposed and strided in memory) "
+        "written with matrix_to_csv and parsed back. "
         "Non-trivial: a batch mixing at least two widths, or a value within 2 of a power of ten.")
 ASSUMPTIONS = [
     "A leading '+' on float text and an upper-case 'E' are a tolerant class: equals float(text) or raises (the parser documents neither).",
@@ -26,7 +27,7 @@ ASSUMPTIONS = [
     "An empty batch may raise or return an empty result.",
 ]
 REQUIRED_CLASSES = ["i2s", "s2i", "ilist", "s2f", "f2s2f", "mixed-widths", "near-power-of-ten", "negative", "leading-zeros", "plus-sign",
-                    "scientific", "missing-placeholder", "file-column", "file-column-first-value-narrower-than-widest", "file-column-signed", "int-column-of-a-written-file", "most-negative-value-of-a-narrow-type"]
+                    "scientific", "missing-placeholder", "file-column", "file-column-first-value-narrower-than-widest", "file-column-signed", "int-column-of-a-written-file", "most-negative-value-of-a-narrow-type", "matrix-transposed-view", "matrix-fortran", "matrix-column-slice"]
 BOUNDS = {"quick": "boundary set complete (singly and in 40 mixed batches); 2500 Hypothesis batches per conversion (about 20 000 values each); 1250 numeric-column files, each read whole, reversed, first row alone and without its first row",
           "thorough": "boundary set complete; 60 000 batches per conversion (about 500 000 values each); 30 000 numeric-column files"}
 BUDGET_S = {"quick": 200, "thorough": 1500}
@@ -86,6 +87,11 @@ def classify(case):
         if any(t.startswith("-") for t in texts):
             cl.append("negative")
         return len(widths) > 1, cl
+    if k == "matrix":
+        flat = [v for r in case["values"] for v in r]
+        widths = {len(str(abs(v))) for v in flat}
+        cl.append("matrix-" + case.get("layout", "c"))
+        return len(widths) > 1 and len(case["values"]) > 1 and len(case["values"][0]) > 1, cl
     if k == "filecols":
         rows = case["rows"]
         widths = {len(r[0]) for r in rows}
@@ -303,6 +309,31 @@ def check(case, stats=None):
                     j = next(i for i, (g, w_) in enumerate(zip(got, want)) if g != w_)
                     out.append(Failure(f"C18:int-to-text-in-written-file:{which}-column", {"value": vals[j], "text": got[j]}))
                     break
+        elif k == "matrix":
+            # an integer matrix written as a separated-values text, in the memory layouts a caller may hold it in, and parsed back
+            from bionumpy.io.matrix_dump import matrix_to_csv, parse_matrix
+            rows_ = case["values"]
+            base = np.array(rows_, dtype=np.int64)
+            layout = case.get("layout", "c")
+            if layout == "transposed-view":
+                m = np.ascontiguousarray(base.T).T            # same values, column-major in memory
+            elif layout == "fortran":
+                m = np.asfortranarray(base)
+            elif layout == "column-slice":
+                wide = np.zeros((base.shape[0], base.shape[1] * 2), dtype=np.int64)
+                wide[:, ::2] = base
+                m = wide[:, ::2]
+            else:
+                m = base
+            header = ["c%d" % j for j in range(base.shape[1])]
+            text = matrix_to_csv(m, header=header).to_string()
+            want_text = ",".join(header) + "\n" + "".join(",".join(str(v) for v in r) + "\n" for r in rows_)
+            if text != want_text:
+                out.append(Failure("C18:matrix-to-text", {"layout": layout, "expected": want_text[:300], "actual": text[:300]}))
+            else:
+                back = parse_matrix(text, field_type=int, rowname_type=None, sep=",")
+                if np.asarray(back.data).tolist() != rows_:
+                    out.append(Failure("C18:matrix-text-to-int", {"expected": rows_, "actual": np.asarray(back.data).tolist()}))
         elif k == "filecols":
             # the same conversions as a text file's numeric columns are parsed (the fixed-width digit matrix of a delimited column)
             rows, types = case["rows"], case["types"]
@@ -455,6 +486,10 @@ def batch_case(draw, kind):
         return {"kind": kind, "texts": texts}
     if kind == "f2s2f":
         return {"kind": kind, "values": draw(st.lists(doubles, min_size=n, max_size=n))}
+    if kind == "matrix":
+        nr, nc = draw(st.integers(1, 5)), draw(st.integers(1, 5))
+        return {"kind": kind, "values": [[draw(ints64) for _ in range(nc)] for _ in range(nr)],
+                "layout": draw(st.sampled_from(["c", "transposed-view", "fortran", "column-slice"]))}
     if kind == "filecols":
         types = draw(st.sampled_from([["int"], ["int", "int"], ["int", "float"], ["float", "int"], ["int", "int", "int"], ["float"]]))
         signed = draw(st.integers(0, 2)) == 0
@@ -473,7 +508,7 @@ def task_kind(stats, known_open, kind, n, seed):
     core.run_hypothesis(sys.modules[__name__], batch_case(kind), stats, known_open, max_examples=n, seed=seed)
 
 
-KINDS = ["i2s", "s2i", "s2i_missing", "ilist", "s2f", "f2s2f", "filecols", "i2s_file"]
+KINDS = ["i2s", "s2i", "s2i_missing", "ilist", "s2f", "f2s2f", "filecols", "i2s_file", "matrix"]
 
 
 def tasks(tier, seed):
@@ -481,5 +516,5 @@ def tasks(tier, seed):
     out = [("task_boundary", {})]
     for i, k in enumerate(KINDS):
         for j in range(reps):
-            out.append(("task_kind", dict(kind=k, n=n // 2 if k in ("filecols", "i2s_file") else n, seed=seed * 1000 + i * 10 + j)))
+            out.append(("task_kind", dict(kind=k, n=n // 2 if k in ("filecols", "i2s_file", "matrix") else n, seed=seed * 1000 + i * 10 + j)))
     return out
